@@ -84,9 +84,14 @@ void ezc3d::DataNS::Points3dNS::Points::point(const ezc3d::DataNS::Points3dNS::P
     if (idx == SIZE_MAX)
         _points.push_back(point);
     else{
-        if (idx >= nbPoints())
+        if (idx >= nbPoints()){
+            // The point sent may be one of this collection (e.g. points.point(0)), which moves when the collection grows
+            ezc3d::DataNS::Points3dNS::Point copy(point);
             _points.resize(idx+1);
-        _points[idx] = point;
+            _points[idx] = copy;
+        }
+        else
+            _points[idx] = point;
     }
 }
 
